@@ -26,6 +26,7 @@ type Case struct {
 	Solo     []int     `json:"solo,omitempty"`   // history positions replayed alone on a fresh instance
 	Load     int       `json:"load,omitempty"`   // > 0: ordering-under-load run with this many rows
 	Throttle bool      `json:"throttle,omitempty"`
+	SlowChan bool      `json:"slow_chan,omitempty"` // load run: the channel consumer stalls now and then, so the 100-slot channel overflows
 }
 
 // ---- schema ------------------------------------------------------------------------------------
@@ -433,9 +434,14 @@ func topOf(p Path) string { return p[0].N }
 
 func genCase(t *rapid.T) Case {
 	var c Case
-	if rapid.IntRange(0, 59).Draw(t, "load") == 41 { // rapid favours the ends of a range: take an inner value
+	if x := rapid.IntRange(0, 59).Draw(t, "load"); x == 41 || x == 23 { // rapid favours the ends of a range: take inner values
 		c.Load = rapid.IntRange(1500, 2500).Draw(t, "loadn")
-		c.Throttle = rapid.Bool().Draw(t, "throttle")
+		switch rapid.IntRange(0, 2).Draw(t, "loadmode") {
+		case 1:
+			c.Throttle = true
+		case 2:
+			c.SlowChan = true
+		}
 	}
 	c.Items = genItems(t, c.Load > 0)
 	c.Where = genWhere(t)
@@ -444,7 +450,12 @@ func genCase(t *rapid.T) Case {
 	if c.Where != nil && c.Where.hasOr() && pbt.Open("C05", "unknown-aborts-or") {
 		// known finding: an UNKNOWN comparison evaluated before a TRUE operand of OR rejects the row.
 		// Keep every compared path typed and present when the predicate contains OR.
-		c.Where.leaves(func(l Pred) { solid[topOf(l.Path)] = true })
+		// (Equality on a flat column does not raise and may stay NULL/absent.)
+		c.Where.leaves(func(l Pred) {
+			if l.Path.nested() || (l.Cmp != "==" && l.Cmp != "=") {
+				solid[topOf(l.Path)] = true
+			}
+		})
 	}
 	n := rapid.IntRange(1, 30).Draw(t, "nrows")
 	if rapid.IntRange(0, 3).Draw(t, "short") == 0 {
@@ -553,7 +564,7 @@ type asyncOut struct {
 // driveAsync feeds rows through Emit on a fresh instance and collects the sync-sink and channel
 // sequences. wantRows is the number of results that must reach the sync sink (from the EmitSync
 // instance); hasBarrier tells whether the last row is a barrier that the reference accepts.
-func driveAsync(q string, rows []map[string]any, pauses []int, wantRows int, hasBarrier bool, slowSink, throttle bool) asyncOut {
+func driveAsync(q string, rows []map[string]any, pauses []int, wantRows int, hasBarrier bool, slowSink, throttle, slowChan bool) asyncOut {
 	var out asyncOut
 	in, err := run.Open(q)
 	if err != nil {
@@ -575,7 +586,9 @@ func driveAsync(q string, rows []map[string]any, pauses []int, wantRows int, has
 				for _, r := range batch {
 					chRows = append(chRows, canonRow(r))
 				}
-				received.Add(int64(len(batch)))
+				if n := received.Add(int64(len(batch))); slowChan && (n == 60 || n == 500 || n == 1100) {
+					time.Sleep(40 * time.Millisecond) // a slow consumer: the engine may drop, but must keep the order
+				}
 			case <-quit:
 				// take what is already buffered, then leave
 				for {
@@ -829,7 +842,7 @@ func runCase(c Case) (res pbt.Result) {
 	for i, r := range rows {
 		goRows[i] = r.Go() // fresh copy per instance
 	}
-	b := driveAsync(q, goRows, c.Pauses, len(retA), bar != nil, false, false)
+	b := driveAsync(q, goRows, c.Pauses, len(retA), bar != nil, false, false, false)
 	if b.err != nil {
 		res.Add(pbt.D("execute-unstable", "%s accepted once, rejected later: %v", q, b.err))
 	} else {
@@ -881,7 +894,7 @@ func runLoad(c Case, q string, bar gen.Row, res *pbt.Result) {
 		}
 	}
 	e.Stop()
-	o := driveAsync(q, mk(), nil, len(exp), bar != nil, true, c.Throttle)
+	o := driveAsync(q, mk(), nil, len(exp), bar != nil, true, c.Throttle, c.SlowChan)
 	if o.err != nil {
 		return
 	}
@@ -1011,7 +1024,14 @@ func features(c Case) []string {
 		case "col":
 			hasCol = true
 			if dottedNeg(it.Path.String()) {
-				f = append(f, "dotted-negative-index")
+				for _, r := range c.Rows {
+					if v, ok := resolve(r, it.Path); ok && !v.IsNull() {
+						if _, isNum := v.Num(); !isNum {
+							f = append(f, "dotted-negative-index")
+							break
+						}
+					}
+				}
 			}
 		case "num":
 			if !strings.HasPrefix(it.Lit, "-") {
